@@ -244,7 +244,7 @@ enum Obs {
     Cfg(String),
     Start(String),
     Get(usize, GetR),
-    Cancel(String),
+    Cancel(usize, String),
     Poll { t: i64, txs: Vec<Tx>, other: usize },
     Rsp { acc: bool, k: usize, pk: usize, pd: i64, src: Vec<u8>, sport: u16, data: Vec<u8> },
     PollAt(Option<i64>),
@@ -262,7 +262,7 @@ fn fmt_obs(o: &Obs) -> String {
             GetR::NoHandle => "get nohandle".into(),
             GetR::Ok(a) => format!("get ok {}", a.iter().map(|x| hex(x)).collect::<Vec<_>>().join(",")),
         },
-        Obs::Cancel(s) => format!("cancel {}", s),
+        Obs::Cancel(_, s) => format!("cancel {}", s),
         Obs::Poll { txs, other, .. } => {
             let mut s = String::new();
             for t in txs {
@@ -424,7 +424,7 @@ fn exec_case(c: &Case) -> Vec<Obs> {
                         Some(()) => "ok",
                     },
                 };
-                obs.push(Obs::Cancel(s.into()));
+                obs.push(Obs::Cancel(k, s.into()));
             }
             "poll" | "ppoll" => {
                 let v: i64 = t[1].parse().unwrap();
@@ -1121,10 +1121,13 @@ fn oracle_case(c: &Case, fails: &mut Vec<String>, stats: &mut BTreeMap<String, u
     let mut first_tx: BTreeMap<usize, i64> = BTreeMap::new();
     let mut tx_times: BTreeMap<usize, Vec<(i64, Vec<u8>)>> = BTreeMap::new();
     let mut prev: Option<&Obs> = None;
+    let mut dead: std::collections::BTreeSet<usize> = Default::default();
     for o in &obs {
         match o {
             Obs::Bad(s) => fail("panic", format!("the stack panicked ({})", s)),
-            Obs::Start(s) | Obs::Cancel(s) if s == "PANIC" && false => {}
+            Obs::Cancel(k, s) if s == "ok" => {
+                dead.insert(*k);
+            }
             Obs::Rsp { k, pk, pd, src, sport, data, .. } => rsps.push((*k, *pk, *pd, src.clone(), *sport, data.clone())),
             Obs::Poll { t, txs, .. } => {
                 last_now = *t;
@@ -1145,7 +1148,16 @@ fn oracle_case(c: &Case, fails: &mut Vec<String>, stats: &mut BTreeMap<String, u
                     }
                 }
             }
+            Obs::Get(k, GetR::Ok(_)) | Obs::Get(k, GetR::Failed) if dead.contains(k) => {
+                // a handle whose slot was already freed (cancel / result taken) aliases whatever
+                // query reuses the slot: not attributable to query k
+                *stats.entry("stale_handle_results".into()).or_default() += 1;
+            }
+            Obs::Get(k, GetR::Failed) => {
+                dead.insert(*k);
+            }
             Obs::Get(k, GetR::Ok(addrs)) => {
+                dead.insert(*k);
                 *stats.entry("completed".into()).or_default() += 1;
                 if addrs.is_empty() {
                     fail("completed-without-addresses", format!("query {} completed with an empty list", k));
